@@ -64,7 +64,9 @@ where
               },
               move |serial| {
                 if is_win_complete(&serial) {
-                  sctl_complete.sink_complete(&serial);
+                  // the winner's completion ends the stream; the losers are torn down
+                  let _ = serial;
+                  sctl_complete.sink_complete_force();
                 } else {
                   sctl_complete.upstream_abort_observe(&serial);
                 }
